@@ -212,17 +212,20 @@ class Polarization(BaseState):
             assert self.state.shape == (self.dimensions, 1)
             if jnp.allclose(self.state, jnp.array([[1], [0]])):
                 self.state = PolarizationLabel.H
+                self.expansion_level = ExpansionLevel.Label
             elif jnp.allclose(self.state, jnp.array([[0], [1]])):
                 self.state = PolarizationLabel.V
+                self.expansion_level = ExpansionLevel.Label
             elif jnp.allclose(
                 self.state, jnp.array([[1 / jnp.sqrt(2)], [1j / jnp.sqrt(2)]])
             ):
                 self.state = PolarizationLabel.R
+                self.expansion_level = ExpansionLevel.Label
             elif jnp.allclose(
                 self.state, jnp.array([[1 / jnp.sqrt(2)], [-1j / jnp.sqrt(2)]])
             ):
                 self.state = PolarizationLabel.L
-            self.expansion_level = ExpansionLevel.Label
+                self.expansion_level = ExpansionLevel.Label
 
     def extract(self, index: Union[int, Tuple[int, int]]) -> None:
         """
